@@ -68,3 +68,41 @@ package transaction
 //@   loop 2 invariant vals: forall k []byte :: inDom(bufferValues, string(k)) ==> bufferValues[string(k)].Value == gVal(b.buffer, k)
 //@   loop 3 invariant merged: forall k []byte :: inDom(bufferValues, string(k)) <==> ((inKeys(keys, k) && gHas(b.buffer, k) && gVal(b.buffer, k) != "") || (seen(string(k)) && inDom(storageValues, string(k))))
 //@   loop 3 invariant vals: forall k []byte :: inDom(bufferValues, string(k)) ==> bufferValues[string(k)].Value == ite(gHas(b.buffer, k), gVal(b.buffer, k), gVal(b.snapshot, k))
+
+// ---- C16: driving the flushed locks of a pipelined transaction to its outcome ------------------------------------------
+// The committer tracks the flushed keys as the inclusive range [pipelinedStart, pipelinedEnd] (smallest and largest
+// flushed key). The background task that resolves them must hand the range-task runner a half-open range that contains
+// every key of [start, end] - the largest flushed key included.
+//@ func (*twoPhaseCommitter) resolveFlushedLocks$1
+//@   prop C16
+//@   bytes: key
+//@   at call(RunOnRange) assert covers: arg_startKey <= start && (arg_endKey == "" || end < arg_endKey)
+
+// The flush callback keeps [pipelinedStart, pipelinedEnd] a cover of every key it has flushed: after a flush of a
+// non-empty buffer the bounds enclose that buffer's smallest and largest key, and the bounds only ever widen.
+// (minKeyOf/maxKeyOf: internal/unionstore/art contract file. Keys are non-empty: an empty bound means "none yet".)
+//@ func (*KVTxn) InitPipelinedMemDB$2
+//@   prop C16
+//@   bytes: key
+//@   opaque-callee Flags HasValue Value Key Handle Next Valid Push pipelinedFlushMutations throttlePipelinedTxn newMemBufferMutations NewBackofferWithVars
+//@   ensures bounds: err == nil && memdb.Len() != 0 && minKeyOf(memdb.ART) != "" ==> txn.committer.pipelinedCommitInfo.pipelinedStart != "" &&
+//@       txn.committer.pipelinedCommitInfo.pipelinedStart <= minKeyOf(memdb.ART) && maxKeyOf(memdb.ART) <= txn.committer.pipelinedCommitInfo.pipelinedEnd
+//@   ensures widen: txn.committer == old(txn.committer) && minKeyOf(memdb.ART) != "" ==> (old(txn.committer.pipelinedCommitInfo.pipelinedStart) != "" ==> txn.committer.pipelinedCommitInfo.pipelinedStart != "" &&
+//@       txn.committer.pipelinedCommitInfo.pipelinedStart <= old(txn.committer.pipelinedCommitInfo.pipelinedStart)) && txn.committer.pipelinedCommitInfo.pipelinedEnd >= old(txn.committer.pipelinedCommitInfo.pipelinedEnd)
+
+// Commit of a pipelined transaction: the primary alone is committed first; only after that succeeded (committed is set)
+// is the tracked range of flushed keys resolved - with the commit outcome and the very bounds the flushes recorded.
+//@ func (*twoPhaseCommitter) commitFlushedMutations
+//@   prop C16
+//@   bytes: key
+//@   opaque-callee GetTimestampForCommit commitMutations broadcastToAllStores NewBackofferWithVars resolveFlushedLocks
+//@   at call(commitMutations) assert primary: len(primaryMutation.keys) == 1 && primaryMutation.keys[0] == c.primaryKey
+//@   at call(resolveFlushedLocks) assert outcome: arg_commit && c.mu.committed && arg_start == c.pipelinedCommitInfo.pipelinedStart && arg_end == c.pipelinedCommitInfo.pipelinedEnd
+//@   ensures committed: result == nil ==> c.mu.committed
+
+// Rollback of a pipelined transaction resolves the same tracked range with the rollback outcome.
+//@ func (*KVTxn) Rollback
+//@   prop C16
+//@   bytes: key
+//@   opaque-callee rollbackPessimisticLocks close FlushWait broadcastToAllStores NewBackofferWithVars resolveFlushedLocks spawnWithStorePool
+//@   at call(resolveFlushedLocks) assert outcome: !arg_commit && arg_start == txn.committer.pipelinedCommitInfo.pipelinedStart && arg_end == txn.committer.pipelinedCommitInfo.pipelinedEnd && arg_start != "" && arg_end != ""
